@@ -33,7 +33,7 @@ structure RawTree where
 
 inductive TreeErr where
   | noHierarchy | badKeys | nonStrNode | orphan | missingChild | twoParents
-  | dupRows | repeatedChild
+  | dupRows | repeatedChild | emptyHierarchy
   | flatTree | levelNotInTree | isLeafLevel | badLevel | badNode
   deriving Repr, BEq, DecidableEq, Inhabited
 
@@ -42,6 +42,7 @@ def TreeErr.name : TreeErr → String
   | .nonStrNode => "nonStrNode" | .orphan => "orphan"
   | .missingChild => "missingChild" | .twoParents => "twoParents"
   | .dupRows => "dupRows" | .repeatedChild => "repeatedChild"
+  | .emptyHierarchy => "emptyHierarchy"
   | .flatTree => "flatTree"
   | .levelNotInTree => "levelNotInTree" | .isLeafLevel => "isLeafLevel"
   | .badLevel => "badLevel" | .badNode => "badNode"
@@ -134,8 +135,12 @@ def validateWith (strictChildren : Bool) (t : RawTree) : Except TreeErr Unit :=
     | .error e => .error e
     | .ok _ =>
       if strictChildren && t.repeatsChild then .error .repeatedChild
-      else if hasDup t.allRows then .error .dupRows
-      else .ok ()
+      else match t.leafLevel with
+        -- `leaf_level = taxonomy_tree['hierarchy'][-1]` : IndexError on `[]`
+        | none => .error .emptyHierarchy
+        | some _ =>
+          if hasDup t.allRows then .error .dupRows
+          else .ok ()
 
 /-- The validator as it stands in `/repo` (strictness flag regenerated from the
 source by the translator, see `CTM/Generated/TreeConsts.lean`). -/
